@@ -21,10 +21,11 @@ use tokio::sync::oneshot;
 
 use crate::{Args, arg_str, arg_u64, mem::fields, rng::Rng};
 
-type ICache = Cache<u64, u64>;
+use crate::mem::{FnBuildHasher, HMode};
+type ICache = Cache<u64, u64, FnBuildHasher>;
 const PHANTOM_BASE: u64 = 1_000_000_000;
-type IEntry = CacheEntry<u64, u64>;
-type IFut = GetOrFetch<u64, u64>;
+type IEntry = CacheEntry<u64, u64, FnBuildHasher>;
+type IFut = GetOrFetch<u64, u64, FnBuildHasher>;
 
 #[derive(Clone, Debug, PartialEq)]
 pub enum Ev {
@@ -74,9 +75,9 @@ fn err_name(e: &Error) -> String {
 }
 
 impl Exec {
-    pub fn new(algo: &str, keys: u64) -> Self {
+    pub fn new(algo: &str, keys: u64, hmode: HMode) -> Self {
         // values >= PHANTOM_BASE are rejected by the memory filter: their records are disk-only ("phantom")
-        let b = CacheBuilder::new(1000).with_shards(1).with_filter(|_k: &u64, v: &u64| *v < PHANTOM_BASE);
+        let b = CacheBuilder::new(1000).with_shards(1).with_filter(|_k: &u64, v: &u64| *v < PHANTOM_BASE).with_hash_builder(FnBuildHasher(hmode));
         let cache: ICache = match algo {
             "lru" => b.with_eviction_config(LruConfig::default()).build(),
             _ => b.with_eviction_config(FifoConfig::default()).build(),
@@ -382,9 +383,12 @@ fn gen_ev(rng: &mut Rng, ex: &Exec, next_c: &mut u64, next_v: &mut u64, keys: u6
 
 pub fn run_case(rng: &mut Rng, maxev: u64) -> String {
     let algo = if rng.chance(1, 2) { "fifo" } else { "lru" };
-    let keys = rng.range(1, 2);
-    let mut out = format!("cfg domain=infl algo={algo} keys={keys}\n");
-    let mut ex = Exec::new(algo, keys);
+    let collide = crate::mem::COLLIDE.load(std::sync::atomic::Ordering::Relaxed);
+    let keys = if collide { rng.range(2, 3) } else { rng.range(1, 2) };
+    // with `collide=1` every key has the same 64-bit hash: the in-flight table must still tell the keys apart
+    let hmode = if collide { HMode::Const(7) } else { HMode::Id };
+    let mut out = format!("cfg domain=infl algo={algo} keys={keys} hmode={}\n", hmode.show());
+    let mut ex = Exec::new(algo, keys, hmode);
     let n = rng.range(1, maxev);
     let (mut next_c, mut next_v) = (0u64, 100u64);
     for _ in 0..n {
@@ -404,11 +408,12 @@ pub fn replay(text: &str) -> String {
         if f.contains_key("cfg") {
             let algo = f.get("algo").cloned().unwrap_or_else(|| "fifo".into());
             let keys = f.get("keys").and_then(|v| v.parse().ok()).unwrap_or(2);
-            let _ = writeln!(out, "cfg domain=infl algo={algo} keys={keys}");
+            let hmode = HMode::parse(f.get("hmode").map(|s| s.as_str()).unwrap_or("id"));
+            let _ = writeln!(out, "cfg domain=infl algo={algo} keys={keys} hmode={}", hmode.show());
             if let Some(mut old) = ex.take() {
                 let _ = &mut old;
             }
-            ex = Some(Exec::new(&algo, keys));
+            ex = Some(Exec::new(&algo, keys, hmode));
             continue;
         }
         let Some(ex) = ex.as_mut() else { continue };
@@ -475,6 +480,7 @@ pub fn main(args: &Args) -> i32 {
     let cases = arg_u64(args, "cases", 100);
     let maxev = arg_u64(args, "maxev", 10);
     let _ = arg_str(args, "mode", "");
+    crate::mem::COLLIDE.store(arg_u64(args, "collide", 0) == 1, std::sync::atomic::Ordering::Relaxed);
     let mut rng = Rng::new(seed ^ 0x1F1F);
     use std::io::Write;
     let stdout = std::io::stdout();
